@@ -33,6 +33,17 @@ Goal forall (uc : unicode) (cfg : go_config) (pd : parsed) (uses defs : list str
     c12_good uses defs = true.
 Proof. exact Props.C12.C12_go. Qed.
 Print Assumptions Props.C12.C12_go.
+Goal forall (uc : unicode), unicode_ok uc ->
+  forall (cfg : go_config) (pd : parsed) (uses defs : list str),
+    c12_go_observe uc cfg pd = Ok (uses, defs) -> c12_go_dom_acr cfg (items_of pd) = true ->
+    c12_good uses defs = true.
+Proof. exact Props.C12.C12_go_acronyms. Qed.
+Print Assumptions Props.C12.C12_go_acronyms.
+Goal c12_go_dom_acr Proofs.C12_Go.c12_go_acr_cfg (items_of Proofs.C12_Go.c12_go_acr_pd) = true /\
+  c12_go_observe uc_exec Proofs.C12_Go.c12_go_acr_cfg Proofs.C12_Go.c12_go_acr_pd =
+    Ok ([lit "time"], [lit "json"; lit "time"]).
+Proof. exact Props.C12.C12_go_acronyms_nonvacuous. Qed.
+Print Assumptions Props.C12.C12_go_acronyms_nonvacuous.
 Goal forall (uc : unicode) (cfg : kt_config) (pd : parsed) (uses defs : list str),
     c12_kt_observe uc cfg pd = Ok (uses, defs) -> c12_kt_known cfg pd = None ->
     c12_good uses defs = true.
